@@ -534,4 +534,45 @@ func runC20(raw json.RawMessage, w *Writer) {
 		w.Emit(Ev{"ev": "mutate", "which": "header", "site": s, "applied": applied2, "res": mres2,
 			"before": before, "other": observeH(&o2.Header)})
 	}
+	// What the accessors hand out belongs to the caller: it APPENDS to every extension value, to the payload and to the
+	// CSRC list of one side (writes into spare capacity only); the other side must not notice. The original is a packet
+	// DECODED from a wire buffer, so its values are windows of that buffer.
+	if len(c.Sites) == 0 {
+		return
+	}
+	for _, side := range []string{"orig", "clone"} {
+		base, err := buildPacket(c.P)
+		if err != nil {
+			return
+		}
+		ref, merr := base.Marshal()
+		if merr != nil {
+			return
+		}
+		arena := make([]byte, len(ref), len(ref)+32)
+		copy(arena, ref)
+		orig := &rtp.Packet{}
+		if orig.Unmarshal(arena) != nil {
+			return
+		}
+		w.Emit(Ev{"ev": "reset", "class": c.Class})
+		var clone *rtp.Packet
+		if r, _ := guard(func() { clone = orig.Clone() }); r != "ok" || clone == nil {
+			continue // reported by the clone events above
+		}
+		target, other := orig, clone
+		if side == "clone" {
+			target, other = clone, orig
+		}
+		before := observe(other)
+		r, _ := guard(func() {
+			for _, id := range target.GetExtensionIDs() {
+				_ = append(target.GetExtension(id), 0xE1, 0xE2, 0xE3, 0xE4)
+			}
+			_ = append(target.Payload, 0xE5, 0xE6)
+			_ = append(target.CSRC, 0xEEEEEEEE)
+		})
+		w.Emit(Ev{"ev": "mutate", "which": "header", "site": siteJ{Side: side, Kind: "result_append"}, "applied": true, "res": r,
+			"before": before, "other": observe(other)})
+	}
 }
